@@ -29,7 +29,18 @@ def diagnose(chk, case):
     return [{"conjunct": p[:300], "code": v} for p, v in zip(parts, vals) if "= 0" not in v][:6]
 
 
+def known_key(case):
+    """F13: _shift_to_cone_interior on a second-order cone with a component beyond 2^52: the margin
+    z0 - ||z1|| and the two unit shifts are absorbed in binary64 (exact class: op shift_huge_soc)."""
+    if case.get("op") == "shift_huge_soc":
+        z = case.get("input", {}).get("z", [])
+        if z and max(abs(v) for v in z) >= 2.0 ** 52:
+            return "F13-shift-to-cone-interior-soc-absorption-beyond-2^52"
+    return None
+
+
 SPEC = {
+    "known_key": known_key,
     "props_file": "C15.v",
     "targets": ["theories/Props/C15.vo", "theories/Cones/Check.vo"],
     "header": HEADER,
